@@ -35,6 +35,7 @@ type Env struct {
 	result []tval
 	resNames []string
 	depth  int
+	at           *ssa.BasicBlock // evaluation point (a return): a local name means the definition reaching it
 	inOld        bool // inside old(.): a parameter name means its entry value, not the loop's current value
 	paramsOnly   bool // names other than parameters do not resolve (lemma instances tried at entry)
 	noteDistinct bool // evaluating an assumed precondition: alloc(a) != alloc(b) facts may be recorded
@@ -365,6 +366,49 @@ func (e *Env) lookupLocal(name string) (tval, bool) {
 					return e.load(c, et, e.st), true
 				}
 			}
+		}
+	}
+	// at a return: the definition of the variable that reaches it (the latest one, in dominance order, among the
+	// phis carrying the name and the values debug information binds to it)
+	if e.loop == nil && e.at != nil {
+		depth := func(b *ssa.BasicBlock) int {
+			n := 0
+			for x := b; x != nil; x = x.Idom() {
+				n++
+			}
+			return n
+		}
+		var bestV ssa.Value
+		bestKey := -1
+		consider := func(v ssa.Value, b *ssa.BasicBlock, idx int) {
+			if b == nil || !(b == e.at || b.Dominates(e.at)) {
+				return
+			}
+			if _, ok := fr.regs[v]; !ok {
+				if _, isC := v.(*ssa.Const); !isC {
+					return
+				}
+			}
+			if key := depth(b)*100000 + idx; key > bestKey {
+				bestKey, bestV = key, v
+			}
+		}
+		for _, b := range fn.Blocks {
+			for idx, in := range b.Instrs {
+				switch x := in.(type) {
+				case *ssa.Phi:
+					if x.Comment == name {
+						consider(x, b, idx)
+					}
+				case *ssa.DebugRef:
+					if !x.IsAddr && identName(x) == name {
+						consider(x.X, b, idx)
+					}
+				}
+			}
+		}
+		if bestV != nil {
+			return tval{T: bestV.Type(), C: fr.val(bestV)}, true
 		}
 	}
 	// SSA registers named through debug info
